@@ -47,5 +47,9 @@ def stop_after_parse(M):
     def stub(Mx, args):
         Mx.evaluator_entered[0] += 1
         return ok(UNIT)
-    for name in M.bodies:
-        if name == 'eval_prog' or name.endswith('::eval_prog'): M.overrides[name] = stub
+    # the evaluation entry point is recognised by its signature (it takes the parsed program), not by its name
+    import re as _re
+    hits = [name for name, b in M.bodies.items() if b.kind == 'fn' and '{closure' not in name and _re.search(r': &(ast::)?Prog\b', b.header) and 'Result<()' in b.header.split(') ->')[-1]]
+    if not hits: hits = [name for name in M.bodies if name == 'eval_prog' or name.endswith('::eval_prog')]
+    if not hits: raise Unsupported('evaluation entry point (a function taking &Prog) not found')
+    for name in hits: M.overrides[name] = stub
